@@ -740,6 +740,9 @@ class TagCountMapper(CombineMapper[int, Never, []]):
             self._cache_add(inputs, 0)
             return result
 
+    def map_size_param(self, expr: Array) -> int:
+        return 0
+
 
 def get_num_tags_of_type(
         outputs: ArrayOrNames,
